@@ -75,8 +75,13 @@ func checkEnumMembers(w *World, r *Result) {
 		}
 		lbl := ""
 		if id := identOf(c.expr); id != nil {
-			// ok variable of a comma-ok assertion
-			ast.Inspect(loop.Body, func(x ast.Node) bool {
+			// ok variable of a comma-ok assertion (read in the function the condition comes from: the loop itself, or
+			// a helper whose success conditions were expanded)
+			var scope ast.Node = loop.Body
+			if hf := funcContaining(id); hf != nil && hf != fi {
+				scope = hf.Decl.Body
+			}
+			ast.Inspect(scope, func(x ast.Node) bool {
 				as, ok := x.(*ast.AssignStmt)
 				if !ok || len(as.Lhs) != 2 || len(as.Rhs) != 1 {
 					return true
@@ -133,7 +138,7 @@ func checkEnumMembers(w *World, r *Result) {
 			cOK, mOK := false, false
 			for _, el := range lit.Elts {
 				if kv, ok := el.(*ast.KeyValueExpr); ok {
-					if es(kv.Key) == "Const" && identOf(kv.Value) != nil && objOf(info, identOf(kv.Value)) == declVar && declVar != nil {
+					if es(kv.Key) == "Const" && identOf(kv.Value) != nil && sameVar(objOf(info, identOf(kv.Value)), declVar) {
 						cOK = true
 					}
 					if es(kv.Key) == "Comment" && identOf(kv.Value) != nil && objOf(info, identOf(kv.Value)) == commentVar && commentVar != nil {
@@ -149,7 +154,7 @@ func checkEnumMembers(w *World, r *Result) {
 	if commentVar != nil {
 		for _, d := range defsIn(info, fi.Decl, commentVar) {
 			if c2, ok := d.(*ast.CallExpr); ok && strings.HasSuffix(fullName(calleeOf(info, c2)), "analysis.fetchConstComment") && len(c2.Args) == 2 {
-				if id := identOf(c2.Args[1]); id != nil && objOf(info, id) == declVar {
+				if id := identOf(c2.Args[1]); id != nil && sameVar(objOf(info, id), declVar) {
 					cmtOK = true
 				}
 			}
@@ -165,7 +170,7 @@ func checkEnumMembers(w *World, r *Result) {
 		}
 		if ix, ok := as.Lhs[0].(*ast.IndexExpr); ok {
 			if _, isMap := info.TypeOf(ix.X).Underlying().(*types.Map); isMap {
-				if id := identOf(ix.Index); id != nil && objOf(info, id) == namedVar && namedVar != nil {
+				if id := identOf(ix.Index); id != nil && sameVar(objOf(info, id), namedVar) {
 					keyOK = true
 				}
 			}
@@ -174,21 +179,27 @@ func checkEnumMembers(w *World, r *Result) {
 	})
 	// named := decl.Type().(*types.Named)
 	namedFromDecl := false
-	if namedVar != nil {
-		ast.Inspect(loop.Body, func(x ast.Node) bool {
+	for _, nv := range aliasClass(namedVar) {
+		hf := funcContaining(&ast.Ident{NamePos: nv.Pos(), Name: nv.Name()})
+		if hf == nil {
+			continue
+		}
+		ast.Inspect(hf.Decl.Body, func(x ast.Node) bool {
 			as, ok := x.(*ast.AssignStmt)
 			if !ok || len(as.Lhs) != 2 || len(as.Rhs) != 1 {
 				return true
 			}
-			if l := identOf(as.Lhs[0]); l != nil && objOf(info, l) == namedVar {
+			if l := identOf(as.Lhs[0]); l != nil && objOf(info, l) == nv {
 				if ta, ok := as.Rhs[0].(*ast.TypeAssertExpr); ok {
 					inner := ast.Unparen(ta.X)
 					// the constant's own type, possibly with its alias resolved: types.Unalias(decl.Type())
 					if c0, ok := inner.(*ast.CallExpr); ok && fullName(calleeOf(info, c0)) == "go/types.Unalias" && len(c0.Args) == 1 {
 						inner = ast.Unparen(c0.Args[0])
 					}
+					// a helper's parameter stands for what the caller passes
+					inner = ast.Unparen(throughParam(info, inner))
 					if c2, ok := inner.(*ast.CallExpr); ok {
-						if sel, ok := c2.Fun.(*ast.SelectorExpr); ok && sel.Sel.Name == "Type" && identOf(sel.X) != nil && objOf(info, identOf(sel.X)) == declVar {
+						if sel, ok := c2.Fun.(*ast.SelectorExpr); ok && sel.Sel.Name == "Type" && identOf(sel.X) != nil && sameVar(objOf(info, identOf(sel.X)), declVar) {
 							namedFromDecl = true
 						}
 					}
